@@ -23,16 +23,29 @@ HOLDS = [200, 1000, 5000]
 
 def shapes(tier):
     out = []
-    for dll, mk, sizes in (("j1939-21", gen21.single, (30,)), ("j1939-22", gen22.single, (250,))):
+    for dll, mk, size in (("j1939-21", gen21.single, 30), ("j1939-22", gen22.single, 250)):
         wins = [(1, 1), (2, 2), (255, 255)] if tier != "quick" else [(1, 1), (255, 255)]
         for w in wins:
-            sc = mk(sizes[0], w[0], w[1], 1000, 1000, third=False)
+            sc = mk(size, w[0], w[1], 1000, 1000, third=False)
             sc["expect"] = {"all": True, "idle": True, "free": True}
             out.append((dll, "cm%d" % w[0], sc))
-        sc = mk(sizes[0], 1, 1, 1000, 1000, pf=0xFE, ps=0x31, third=False)
+        sc = mk(size, 1, 1, 1000, 1000, pf=0xFE, ps=0x31, third=False)
         sc["expect"] = {"all": True, "idle": True, "free": True}
         out.append((dll, "bam", sc))
+        if tier != "quick" or dll == "j1939-21":
+            # two sessions of one originator at the same time (to two destinations): the pass walks a snapshot of several keys
+            sc = mk(size, 2, 2, 1000, 1000, third=True)
+            sc["nodes"][2]["lat"] = 1300
+            sc["sends"].append(gen21.send(300, "A", 0x10, 0xD1, 0x30, size + 9, salt=3))
+            sc["expect"] = {"all": True, "idle": True, "free": True}
+            out.append((dll, "two", sc))
     return out
+
+
+def follow_up(sc):
+    """a second message for the same destination, submitted by the application thread WHILE the job thread is held"""
+    s0 = sc["sends"][0]
+    return [400, dict(s0, size=s0["size"] + 5, salt=7)]
 
 
 def nontrivial(tr):
@@ -56,7 +69,8 @@ def sig(tr):
 def run(chk, replay):
     chk.rule = ("per shape (RTS/CTS windows 1, 2, all and BAM, J1939-21 30 bytes / J1939-22 250 bytes): every executed "
                 "(stack, file, line, occurrence) of the job threads x hold in {0.2, 1, 5} ms (quick: one hold per point, "
-                "rotating), plus seeded double pre-emptions; distinct = distinct (shape, pre-emption point(s), hold); non-trivial = a "
+                "rotating), plus seeded double pre-emptions, plus two concurrent sessions of one originator, plus a run per "
+                "point in which the application submits the next message for the same destination while the thread is held; distinct = distinct (shape, pre-emption point(s), hold); non-trivial = a "
                 "frame was received by the held stack while its job thread was suspended")
     chk.assumptions = ["pre-emption granularity = source line (as the property states); finer (bytecode) interleavings "
                        "are covered only as far as they coincide with a line boundary",
@@ -66,7 +80,7 @@ def run(chk, replay):
         pre = sc.pop("preempt")
         spec = "Tp21Trace" if sc.get("dll", "j1939-21") == "j1939-21" else "Tp22Trace"
         tr, _, _ = preempt.run(sc, tuple(pre["target"]) if pre["target"] else None, pre["hold_us"],
-                               tuple(pre["second"]) if pre["second"] else None)
+                               tuple(pre["second"]) if pre["second"] else None, during=pre.get("during"))
         chk.validate(spec + ".tla", spec + ".cfg", [tr], "replay", nontrivial=nontrivial)
         return
     quick = chk.tier == "quick"
@@ -86,6 +100,15 @@ def run(chk, replay):
         for _ in range(40 if quick else 600):
             a, b = rng.sample(pts, 2)
             traces.append(preempt.run(sc, a, rng.choice(HOLDS), second=b)[0])
+        if name != "two":
+            # the application submits the next message for the same destination while the job thread is held: it is
+            # either refused (pair busy) or accepted - and then delivered like any other
+            sc2 = dict(sc, expect=dict(sc["expect"], all=True))
+            t_first = min(t for t in p0.point_time.values())
+            for i, pt in enumerate(pts):
+                if p0.point_time[pt] == t_first or (quick and i % 3 != chk.seed % 3):
+                    continue              # (not the start-up pass: the transfer has not begun, the other stacks do not exist yet)
+                traces.append(preempt.run(sc2, pt, 1000, during=follow_up(sc))[0])
         chk.validate(spec + ".tla", spec + ".cfg", traces, "%s%s" % (dll[-2:], name), sig=sig, nontrivial=nontrivial)
     chk.exhaustive = True
     chk.extra["preemption_points"] = npoints
